@@ -78,14 +78,18 @@ def isCallableAt (st : List Kind) (d : Nat) : Bool :=
   | some k => isCallableKind k
   | none => false
 
+/-- `self.peek().is_some_and(|obj| !matches!(*obj.borrow(), StackObject::Mark))` -/
+def topNonMark (st : List Kind) : Bool :=
+  match st with
+  | [] => false
+  | k :: _ => k != .mark
+
 /-- `can_emit` (`validation.rs`). -/
 def canEmit (c : Cfg) (s : State) (op : Op) : Bool :=
   let st := s.stack
   match op with
   | .pop => st.length ≥ 1
-  | .dup => match st with
-    | [] => false
-    | k :: _ => k != .mark
+  | .dup => topNonMark st
   | .append => st.length ≥ 2 && isAt st 1 .list
   | .appends => hasMark st && belowMark st == some .list &&
       (match countToMark st with | some n => n > 0 | none => false)
@@ -108,12 +112,8 @@ def canEmit (c : Cfg) (s : State) (op : Op) : Bool :=
   | .inst => hasMark st && (match countToMark st with | some n => n > 0 | none => false)
   | .obj => hasMark st && (match aboveMark st with | some k => isCallableKind k | none => false)
   | .get | .binGet | .longBinGet => !s.memo.isEmpty
-  | .put | .longBinPut | .memoize => match st with
-    | [] => false
-    | k :: _ => k != .mark
-  | .binPut => (match st with
-    | [] => false
-    | k :: _ => k != .mark) && s.memo.length < 256
+  | .put | .longBinPut | .memoize => topNonMark st
+  | .binPut => topNonMark st && s.memo.length < 256
   | .stackGlobal =>
     if c.unsafeMut then st.length ≥ 2
     else st.length ≥ 2 && isAt st 0 .string && isAt st 1 .string
@@ -127,9 +127,7 @@ def canEmit (c : Cfg) (s : State) (op : Op) : Bool :=
   | .mark => true
   | .ext1 | .ext2 | .ext4 => c.allowExt
   | .nextBuffer => c.allowBuf
-  | .readOnlyBuffer => c.allowBuf && (match st with
-    | [] => false
-    | k :: _ => k != .mark)
+  | .readOnlyBuffer => c.allowBuf && topNonMark st
   | .frame => false
 
 /-- `Dict` / `SetItems` loop: pop a value; stop if it is the MARK; otherwise also pop a key
@@ -233,28 +231,34 @@ def process (ver : Nat) (s : State) (op : Op) (arg : Arg) : State :=
 def validOps (table : List Op) (c : Cfg) (s : State) : List Op := table.filter (canEmit c s)
 
 /-- First loop of `cleanup_for_stop`: one `TUPLE` per remaining MARK. Fuel = an upper bound on
-the number of MARKs (the stack length); `cleanup_marks_fuel` in `Proofs` shows it suffices. -/
-def cleanupMarks (ver : Nat) : Nat → State → List Op → State × List Op
-  | 0, s, acc => (s, acc)
-  | n + 1, s, acc =>
-    if hasMark s.stack then cleanupMarks ver n (process ver s .tuple .none) (acc ++ [.tuple])
-    else (s, acc)
+the number of MARKs (the stack length); `Proofs/Cleanup.lean` shows it suffices. -/
+def cleanupMarks (ver : Nat) : Nat → State → State × List Op
+  | 0, s => (s, [])
+  | n + 1, s =>
+    if hasMark s.stack then
+      let (s', ops) := cleanupMarks ver n (process ver s .tuple .none)
+      (s', .tuple :: ops)
+    else (s, [])
+
+/-- the opcode one iteration of the collapse loop emits -/
+def collapseOp (ver : Nat) (len : Nat) : Op :=
+  if ver < 2 then .pop else if len ≥ 3 then .tuple3 else .tuple2
 
 /-- Second loop: collapse to one element. `TUPLE3`/`TUPLE2` from protocol 2 on, `POP` below
-(protocol 0/1 have no mark-less tuple opcode). -/
-def cleanupCollapse (ver : Nat) : Nat → State → List Op → State × List Op
-  | 0, s, acc => (s, acc)
-  | n + 1, s, acc =>
+(protocol 0/1 have no mark-less tuple opcode). Fuel = the stack length. -/
+def cleanupCollapse (ver : Nat) : Nat → State → State × List Op
+  | 0, s => (s, [])
+  | n + 1, s =>
     if s.stack.length > 1 then
-      let op : Op := if ver < 2 then .pop else if s.stack.length ≥ 3 then .tuple3 else .tuple2
-      cleanupCollapse ver n (process ver s op .none) (acc ++ [op])
-    else (s, acc)
+      let op := collapseOp ver s.stack.length
+      let (s', ops) := cleanupCollapse ver n (process ver s op .none)
+      (s', op :: ops)
+    else (s, [])
 
-/-- `cleanup_for_stop`: returns the final state and the opcodes it emitted, in order. -/
-def cleanup (ver : Nat) (s : State) : State × List Op :=
-  let (s1, a1) := cleanupMarks ver s.stack.length s []
-  let (s2, a2) := cleanupCollapse ver s1.stack.length s1 a1
-  let (s3, a3) := if s2.stack.length = 0 then (process ver s2 .pnone .none, a2 ++ [.pnone]) else (s2, a2)
+/-- the rest of `cleanup_for_stop`: `NONE` on an empty stack, and the "final check" that pops a
+MARK left on top (unreachable, kept because the Rust has it) -/
+def cleanupFinal (ver : Nat) (s2 : State) : State × List Op :=
+  let (s3, a3) := if s2.stack.length = 0 then (process ver s2 .pnone .none, [Op.pnone]) else (s2, [])
   match s3.stack with
   | k :: t =>
     if k = .mark then
@@ -262,5 +266,12 @@ def cleanup (ver : Nat) (s : State) : State × List Op :=
       if t.length = 0 then (process ver s4 .pnone .none, a3 ++ [.pnone]) else (s4, a3)
     else (s3, a3)
   | [] => (s3, a3)
+
+/-- `cleanup_for_stop`: returns the final state and the opcodes it emitted, in order. -/
+def cleanup (ver : Nat) (s : State) : State × List Op :=
+  let r1 := cleanupMarks ver s.stack.length s
+  let r2 := cleanupCollapse ver r1.1.stack.length r1.1
+  let r3 := cleanupFinal ver r2.1
+  (r3.1, r1.2 ++ r2.2 ++ r3.2)
 
 end PFV
